@@ -1005,6 +1005,20 @@ def rule_smart_flags(ctx):
                     if v0[0] == "bin" and v0[1] == "BitAnd" and any(strip_casts(x)[0] == "un" and has_call(x, upper, is_char) for x in (v0[2], v0[3])):
                         good = True
                 if not good:
+                    # written as a branch: `if is_upper_case(c) { ignore_case = false }`
+                    for d_, ch_, allv_ in conds:
+                        t_ = (ch_ != 0) if ch_ is not None else True
+                        dd_ = strip_casts(d_)
+                        neg_ = False
+                        while dd_[0] == "un" and dd_[1] == "Not":
+                            dd_ = strip_casts(dd_[2]); neg_ = not neg_
+                        if has_call(dd_, upper, is_char) and dd_[0] in ("call", "call_mut"):
+                            is_up = t_ != neg_
+                            if is_up and nv is not None and strip_casts(nv)[0] == "const" and not strip_casts(nv)[1]:
+                                good = True
+                            if not is_up and nv is None:
+                                good = True
+                if not good:
                     problems.append(("smart-case", "under CaseMatching::Smart a character%s is stored without `ignore_case &&= !is_upper_case(c)` (new flag value: %s): an atom with an upper-case letter there is matched case-insensitively"
                                      % (" known to be ASCII" if ascii_c else "", show(nv)[:60] if nv is not None else "unchanged")))
             if "Ignore" in cases and len(cases) == 1:
@@ -1031,6 +1045,21 @@ def rule_smart_flags(ctx):
                                              "flag no longer says whether the STORED atom has a normalizable character (case folding can move a character into or out of the table)"
                                              % (show(nargs[0])[:50], show(stv[0])[:50])))
                             continue
+                if not good and old_nz is not False:
+                    # written as a branch: `if normalize(x) != x { normalize = false }` -- x has to be the stored character
+                    for d_, ch_, allv_ in conds:
+                        t_ = (ch_ != 0) if ch_ is not None else True
+                        dd_ = strip_casts(d_)
+                        if dd_[0] == "bin" and dd_[1] in ("Ne", "Eq") and has_call(dd_, ("chars::normalize::normalize", "chars::normalize"), is_char):
+                            differs = t_ if dd_[1] == "Ne" else (not t_)
+                            nargs = [strip_casts(x[2][0]) for x in walk(dd_) if x[0] in ("call", "call_mut") and any(str(x[1]).endswith(sfx) for sfx in ("chars::normalize::normalize", "chars::normalize")) and x[2]]
+                            stv = [strip_casts(v) for v in st_vals]
+                            if nargs and stv and not any(a_ == v_ for a_ in nargs for v_ in stv):
+                                continue
+                            if differs and nv is not None and strip_casts(nv)[0] == "const" and not strip_casts(nv)[1]:
+                                good = True
+                            if not differs and nv is None:
+                                good = True
                 if not good:
                     problems.append(("smart-normalize", "under Normalization::Smart a non-ASCII character is stored without `normalize &&= normalize(c) == c` (new flag value: %s)" % (show(nv)[:60] if nv is not None else "unchanged")))
         if problems:
